@@ -25,6 +25,9 @@
 //	Registry()            []Entry        every type of internal/types having Encode and/or Decode
 //	ScanRepo(dir)         map[string]Dir go/parser scan of <dir>/internal/types/{encode,decode}.go
 //	CheckRegistry(scan)   (missing, stale []string)
+//	Walk(v, t, f)                        visit every sub-value of type t
+//	Layout(v, seg, hook)  (bytes, marks) independent reference serialiser with positions (layout.go)
+//	RefDecode(t, b, seg, hook) (n, *Reject)  strict reference parser, classification only (refdec.go)
 //
 // # Why recipes
 //
